@@ -26,8 +26,8 @@ CROSSHAIR = ["xh/g_function_contract.py"]
 ASSUMPTIONS = ["A1 z3 sound", "A2 numpy object-array semantics",
                "fidelity returns a float: 'equals' means |value - oracle| <= 1e-9 (2**(-k/2) squared is 0.5000000000000001 for k=1)",
                "destabilizer halves of fidelity's inputs are left unconstrained (the function never reads them)"]
-BOUNDS = {"quick": {"canonical_form": "n<=2", "gauge": "n<=2", "fidelity": "n<=1 whole function; row_sum n<=4"},
-          "thorough": {"canonical_form": "n<=3", "gauge": "n<=3", "fidelity": "n<=2 whole function; row_sum n<=6"}}
+BOUNDS = {"quick": {"canonical_form": "n<=2 (+budgeted n=3)", "gauge": "n<=2", "fidelity": "two symbolic tableaux n<=1 (+budgeted n=2); fidelity(T,T)=1 / sign-flip=0 for n<=2 (+budgeted n=3, n=4); row_sum n<=4"},
+          "thorough": {"canonical_form": "n<=3", "gauge": "n<=3", "fidelity": "two symbolic tableaux n<=2; fidelity(T,T) n<=3 complete, n=4 under a 1 h budget; row_sum n<=6"}}
 OUTSIDE = "n>=4 (n>=3 for whole-function fidelity); the density-matrix branch of the metric (C17)"
 
 
@@ -336,12 +336,12 @@ def plan(tier):
     jobs.append((FidelitySelf(n=2), {}))
     if q:
         # budgeted look at the next size: every explored path is solver-decided, the exploration is not complete
-        for h, budget in ((Fidelity(n=2, symmetry=False), 45), (CanonicalForm(n=3), 30), (FidelitySelf(n=3), 45)):
+        for h, budget in ((Fidelity(n=2, symmetry=False), 45), (CanonicalForm(n=3), 30), (FidelitySelf(n=3), 45), (FidelitySelf(n=4), 45)):
             h.parallel = True
             h.partial_ok = True
             jobs.append((h, {"time_budget": budget, "chunk_paths": 16, "chunk_s": 8.0}))
     if not q:
-        for h, budget in ((CanonicalForm(n=3), 3600), (Fidelity(n=2, symmetry=False), 2 * 3600), (FidelitySelf(n=3), 3 * 3600)):
+        for h, budget in ((CanonicalForm(n=3), 3600), (Fidelity(n=2, symmetry=False), 2 * 3600), (FidelitySelf(n=3), 3 * 3600), (FidelitySelf(n=4), 3600)):
             h.parallel = True
             h.partial_ok = True  # budgets are sized to complete on an idle 16-core machine; a truncated run is reported as PARTIAL
             jobs.append((h, {"time_budget": budget, "chunk_paths": 64}))
